@@ -131,6 +131,8 @@ type machine struct {
 	concrete  *concreteFeed // non-nil in concrete (differential / replay-in-engine) mode
 
 	permuteMaps int
+	prov        map[*Term]provenance
+	nonnegCache map[*Term]bool
 	spec        bool
 	noMerge     bool
 	merges      int
@@ -673,4 +675,50 @@ func shortPos(prog *ssa.Program, instr ssa.Instruction) string {
 		f = f[i+6:]
 	}
 	return fmt.Sprintf("%s:%d", f, p.Line)
+}
+
+// provenance records that a byte/digit term is piece idx of n of an encoding
+// of src, so that the matching decoder can return src without arithmetic.
+type provenance struct {
+	kind string // "varint", "bigbytes", "decimal"
+	src  *Term
+	idx  int
+	n    int
+}
+
+func (m *machine) setProv(t value, p provenance) {
+	tt, ok := t.(*Term)
+	if !ok || tt.IsConst() {
+		return
+	}
+	if m.prov == nil {
+		m.prov = map[*Term]provenance{}
+	}
+	if _, dup := m.prov[tt]; !dup {
+		m.prov[tt] = p
+	}
+}
+
+// wholeProv: do the n values b[0..n) form, in order, the complete encoding of one source?
+func (m *machine) wholeProv(b []value, kind string) (*Term, bool) {
+	if len(b) == 0 || m.prov == nil {
+		return nil, false
+	}
+	var src *Term
+	for i, x := range b {
+		t, ok := x.(*Term)
+		if !ok {
+			return nil, false
+		}
+		p, ok := m.prov[t]
+		if !ok || p.kind != kind || p.idx != i || p.n != len(b) {
+			return nil, false
+		}
+		if i == 0 {
+			src = p.src
+		} else if p.src != src {
+			return nil, false
+		}
+	}
+	return src, true
 }
